@@ -32,6 +32,28 @@ class InjectedFault(Exception):
 
 
 def _exc(name):
+    if name.startswith("unpicklable"):
+        # an exception object that cannot cross a process boundary by pickling: of a local class, holding an open file
+        def make(msg):
+            class LocalFailure(Exception):
+                pass
+
+            e = LocalFailure(msg)
+            e.handle = open(os.devnull)
+            return e
+
+        return make
+    if name.startswith("signal:"):
+        # the processing of the item ends in a signal death (OOM killer, crash in native code), not in a Python exception
+        import signal as _sig
+        import time as _t
+
+        def die(msg):
+            os.kill(os.getpid(), getattr(_sig, name.split(":")[1]))
+            _t.sleep(10)
+            return RuntimeError(msg)
+
+        return die
     return {"RuntimeError": RuntimeError, "OSError": OSError, "InjectedFault": InjectedFault}[name]
 
 
@@ -83,6 +105,21 @@ def cases(tier, seed):
             add(st, list(allp[-1]), depth=d, par=k, late=0.15, profile="slow_workers")
             if st != "walk":
                 add(st, "ALL", depth=d, par=k, late=0.05, profile="natural")
+    # I/O errors inside toasty's own tile I/O during a real cascade
+    import errno as _errno
+
+    for i in range(8 if tier == "quick" else 80):
+        d = R.choice([2, 3])
+        op = ["write", "read"][i % 2]
+        pos = R.choice(rq.all_positions(d - 1)) if op == "write" else R.choice(rq.all_positions(d, 1))
+        add("cascade_io", list(pos), depth=d, par=[1, 2, 4, 2][i % 4], fmt=R.choice(["npy", "fits", "png"]), op=op,
+            errno=R.choice([[_errno.ENOSPC, "No space left on device (injected)"], [_errno.EIO, "Input/output error (injected)"], [_errno.EMFILE, "Too many open files (injected)"]]))
+    # failures that are not plain picklable exceptions
+    for exc in ("unpicklable", "signal:SIGKILL", "signal:SIGSEGV", "signal:SIGABRT"):
+        for st, d in (("walk", 2), ("leaves", 2), ("walk", 3)) if tier == "quick" else (("walk", 2), ("leaves", 2), ("walk", 3), ("leaves", 3), ("walk", 2), ("leaves", 1)):
+            allp = rq.all_positions(d, d) if st == "leaves" else rq.all_positions(d - 1)
+            add(st, list(R.choice(allp)), depth=d, par=R.choice([2, 4]), exc=exc, profile=R.choice(["natural", "jitter", "slow_workers"]))
+        add("leaves", [1, 0, 1], depth=1, par=1, exc=exc)
     # siblings of the failing worker are terminated while they are inside Event.is_set (holding the event's lock)
     for k in (2, 4, 8) if tier == "quick" else (2, 2, 3, 4, 4, 8, 8, 16):
         for st, d in (("walk", 2), ("walk", 3), ("leaves", 2), ("doone", 2)):
@@ -269,6 +306,30 @@ def _stage_fn(spec, workdir):
 
             pio.update_image = upd
         return (lambda: proc.tile(pio, rf, parallel=par)), "producer"
+    if st == "cascade_io":
+        # a real cascade in which ONE tile cannot be stored (ENOSPC / EIO inside toasty's own write path) or cannot be
+        # loaded (EIO / EMFILE inside its read path): source-free failpoints at Image.save / ImageLoader.load_path
+        import errno
+
+        from toasty.image import Image
+        from toasty.merge import averaging_merger, cascade_images
+        from toasty.pyramid import PyramidIO
+
+        from vlib import sched, tilegen
+
+        d = os.path.join(workdir, "pyr")
+        fmt = spec["fmt"]
+        p0 = PyramidIO(d, default_format=fmt)
+        for p in rq.all_positions(spec["depth"], spec["depth"]):
+            arr = np.full((256, 256, 4), 9, np.uint8) if fmt == "png" else np.full((256, 256), 1.5, np.float32)
+            p0.write_image(Pos(*p), Image.from_array(arr), format=fmt)
+        rel = tilegen.tile_relpath(tuple(item), fmt)
+        err = OSError(*spec["errno"])
+        sched.failpoint("image.py", "save" if spec["op"] == "write" else "load_path", err, count=1,
+                        when=lambda L: str(L.get("path_or_stream", L.get("path"))).endswith(rel),
+                        on_fire=lambda: evlog.ev("fault_injected", pos=item, how="%s fails with %s" % (spec["op"], spec["errno"][1])))
+        pio = PyramidIO(d, default_format=fmt)
+        return (lambda: cascade_images(pio, spec["depth"], averaging_merger, parallel=par)), "walk"
     if st == "cli_cascade":
         from toasty import cli
         from toasty.image import Image
@@ -330,6 +391,15 @@ def case_subprocess(spec, workdir):
 
 
 def run_case(spec, workdir):
+    from vlib import sched
+
+    try:
+        return _run_case(spec, workdir)
+    finally:
+        sched.clear_failpoints()
+
+
+def _run_case(spec, workdir):
     if spec["stage"] == "subprocess_cascade":
         return case_subprocess(spec, workdir)
     par = spec["par"]
@@ -359,8 +429,8 @@ def run_case(spec, workdir):
     sample = dict(spec=spec, outcome=outcome, info=info, tail=[{k: r.get(k) for k in ("k", "pid", "role", "q", "pos", "item", "e") if r.get(k) is not None} for r in recs[-8:]])
     res = dict(counters=dict(counters), nontrivial=par >= 2, sample=sample,
                sets=dict(fault_points=[[spec["stage"], par, spec["item"], spec["exc"], spec["profile"]]], interleaving_signatures=[models.signature(recs)]))
-    if outcome == "raised":
-        res["status"] = "held"
+    if outcome == "raised" or (par == 1 and outcome == "died" and str(spec["exc"]).startswith("signal:")):
+        res["status"] = "held"  # (a signal death in serial mode takes the caller's own process down: visible)
         return res
     mode = "serial" if par == 1 else "parallel"
     res.update(status="violation", key="%s:%s:%s" % (spec["stage"], mode, outcome),
@@ -371,7 +441,7 @@ def run_case(spec, workdir):
 
 def finish(agg, tier):
     c = agg["counters"]
-    miss = [s for s in ("walk", "leaves", "u8", "doone", "mtan", "mwcs", "cli_cascade") if c.get("faults_" + s, 0) < 2]
+    miss = [s for s in ("walk", "leaves", "u8", "doone", "mtan", "mwcs", "cli_cascade", "cascade_io") if c.get("faults_" + s, 0) < 2]
     if c.get("faults_k1", 0) < 3:
         miss.append("serial controls")
     if miss:
